@@ -142,11 +142,15 @@ impl OptimisingLineFormatter {
     ///
     /// This must only happen once no line will be wrapped again: a re-flow may move a token
     /// away from the start of a line, and it then needs its space back.
+    ///
+    /// Lines for which no solution was found keep the line breaks of the input; those are
+    /// limited to a single blank line here, like everywhere else.
     fn remove_spaces_at_line_starts(formatted_tokens: &mut FormattedTokens<'_>) {
         for token_index in 0..formatted_tokens.len() {
             if let Some(data) = formatted_tokens.get_formatting_data_mut(token_index) {
                 if data.newlines_before > 0 {
                     data.spaces_before = 0;
+                    data.newlines_before = data.newlines_before.min(2);
                 }
             }
         }
